@@ -6,13 +6,13 @@ CONSTANTS
   CapRes = 2
   Kinds = {"simple", "drop", "distinct", "lookup1", "lookup2", "count", "limit", "both", "agg"}
   MaxStages = 2
-  Ns = {0, 1, 2, 3, 5}
+  Ns = {0, 1, 2, 3}
   Fs = {1, 0, 2}
-  Ks = {99, 0, 1, 2}
+  Ks = {99, 0, 1}
   LimitL = 1
   AggA = 2
   BothDrain = "concurrent"
-  MaxWork = 5
+  MaxWork = 3
   Reduce = FALSE
   Survey = FALSE
 SPECIFICATION Spec
